@@ -9,6 +9,8 @@ floating point; the correspondence compares the two within rounding).
 import EdxmlModel.Miner.Confidence
 import EdxmlModel.Miner.Search
 import EdxmlProps.Lemmas.Search
+import EdxmlModel.Miner.Construct
+import EdxmlProps.Lemmas.Construct
 import EdxmlProps.Lemmas.Merge
 import Mathlib.Tactic.Linarith
 import Mathlib.Tactic.Positivity
@@ -436,6 +438,157 @@ theorem coverage (isSeed : Bool) (cs : List Rat) (min : Rat) (hmin : min ≤ 1)
   rcases hentries c (by simp) with h | h
   · exact le_of_lt h
   · rw [h]; exact hmin
+
+/-! ### Graph construction from events (`GraphConstructor.add`) -/
+
+section Construct
+open Edxml.Miner.Construct
+
+/-- C20 (coverage, first half): every object that an event has for a property associated with a
+concept gets a node of that event, property and value -- whether or not the property takes part in
+concept relations, and whatever the other properties of the event hold. Together with `coverage`
+(every node ends up in an instance): every concept-associated event object belongs to an instance. -/
+theorem construct_covers (k : Nat) (et : EtDef) (ev : Ev) (p : PropDef) (v : String)
+    (hp : p ∈ et.props) (ha : p.assocs ≠ []) (hv : v ∈ objects ev p.name) :
+    ∃ n ∈ eventNodes k et ev, n.event = k ∧ n.prop = p.name ∧ n.value = v := by
+  by_cases hrel : p.name ∈ relationProps et
+  · obtain ⟨r, hr, hc, hx⟩ := mem_relationProps.mp hrel
+    rcases hx with hx | hx
+    · refine ⟨⟨k, r.source, r.sc, v⟩, ?_, rfl, hx.symm, rfl⟩
+      exact mem_eventNodes.mpr (Or.inl ⟨r, hr, hc, Or.inl (mem_sourceNodes.mpr ⟨v, hx ▸ hv, rfl⟩)⟩)
+    · refine ⟨⟨k, r.target, r.tc, v⟩, ?_, rfl, hx.symm, rfl⟩
+      exact mem_eventNodes.mpr (Or.inl ⟨r, hr, hc, Or.inr (mem_targetNodes.mpr ⟨v, hx ▸ hv, rfl⟩)⟩)
+  · obtain ⟨c, cs, hcs⟩ := List.exists_cons_of_ne_nil ha
+    refine ⟨⟨k, p.name, c, v⟩, ?_, rfl, rfl, rfl⟩
+    exact mem_eventNodes.mpr (Or.inr (mem_plainNodes.mpr ⟨p, hp, hrel, c, by simp [hcs], v, hv, rfl⟩))
+
+/-- nothing is invented: a node stands for an object the event holds for that property -/
+theorem nodes_sound (k : Nat) (et : EtDef) (ev : Ev) (n : NodeId) (hn : n ∈ eventNodes k et ev) :
+    n.event = k ∧ n.value ∈ objects ev n.prop := by
+  rcases mem_eventNodes.mp hn with ⟨r, _, _, h | h⟩ | h
+  · obtain ⟨v, hv, rfl⟩ := mem_sourceNodes.mp h; exact ⟨rfl, hv⟩
+  · obtain ⟨v, hv, rfl⟩ := mem_targetNodes.mp h; exact ⟨rfl, hv⟩
+  · obtain ⟨p, _, _, c, _, v, hv, rfl⟩ := mem_plainNodes.mp h; exact ⟨rfl, hv⟩
+
+/-- what `Ontology.validate()` demands of concept relations: the concepts they name are concepts
+their properties are associated with -/
+def RelsOk (et : EtDef) : Prop :=
+  ∀ r ∈ et.rels, r.isConcept = true →
+    (∃ p ∈ et.props, p.name = r.source ∧ r.sc ∈ p.assocs) ∧ (∃ p ∈ et.props, p.name = r.target ∧ r.tc ∈ p.assocs)
+
+/-- a node carries a concept its property is associated with -/
+theorem nodes_concept (k : Nat) (et : EtDef) (ev : Ev) (hok : RelsOk et) (n : NodeId) (hn : n ∈ eventNodes k et ev) :
+    ∃ p ∈ et.props, p.name = n.prop ∧ n.concept ∈ p.assocs := by
+  rcases mem_eventNodes.mp hn with ⟨r, hr, hc, h | h⟩ | h
+  · obtain ⟨v, _, rfl⟩ := mem_sourceNodes.mp h; exact (hok r hr hc).1
+  · obtain ⟨v, _, rfl⟩ := mem_targetNodes.mp h; exact (hok r hr hc).2
+  · obtain ⟨p, hp, _, c, hc, v, _, rfl⟩ := mem_plainNodes.mp h; exact ⟨p, hp, rfl, hc⟩
+
+/-- links join two different nodes of the graph, of one and the same event -/
+theorem links_closed (k : Nat) (et : EtDef) (ev : Ev) (l : Link) (hl : l ∈ eventLinks k et ev) :
+    l.src ∈ eventNodes k et ev ∧ l.dst ∈ eventNodes k et ev ∧ l.src ≠ l.dst ∧ l.src.event = l.dst.event := by
+  unfold eventLinks at hl
+  simp only [List.mem_flatMap, List.mem_filter] at hl
+  obtain ⟨r, ⟨hr, hc⟩, hl⟩ := hl
+  obtain ⟨s, hs, t, ht, hst, h⟩ := mem_relLinks.mp hl
+  have hsn : s ∈ eventNodes k et ev := mem_eventNodes.mpr (Or.inl ⟨r, hr, hc, Or.inl hs⟩)
+  have htn : t ∈ eventNodes k et ev := mem_eventNodes.mpr (Or.inl ⟨r, hr, hc, Or.inr ht⟩)
+  have hev : s.event = t.event := by rw [(nodes_sound k et ev s hsn).1, (nodes_sound k et ev t htn).1]
+  rcases h with rfl | rfl
+  · exact ⟨hsn, htn, hst, hev⟩
+  · exact ⟨htn, hsn, fun h => hst h.symm, hev.symm⟩
+
+/-- inference can go either way: with every link the graph holds the reverse link -/
+theorem links_symm (k : Nat) (et : EtDef) (ev : Ev) (l : Link) (hl : l ∈ eventLinks k et ev) :
+    ⟨l.dst, l.src⟩ ∈ eventLinks k et ev := by
+  unfold eventLinks at hl ⊢
+  simp only [List.mem_flatMap, List.mem_filter] at hl ⊢
+  obtain ⟨r, hrc, hl⟩ := hl
+  refine ⟨r, hrc, ?_⟩
+  obtain ⟨s, hs, t, ht, hst, h⟩ := mem_relLinks.mp hl
+  refine mem_relLinks.mpr ⟨s, hs, t, ht, hst, ?_⟩
+  rcases h with rfl | rfl
+  · exact Or.inr rfl
+  · exact Or.inl rfl
+
+/-- every source object is linked with every target object of a concept relation -/
+theorem links_complete (k : Nat) (et : EtDef) (ev : Ev) (r : RelDef) (hr : r ∈ et.rels) (hc : r.isConcept = true)
+    (a b : String) (ha : a ∈ objects ev r.source) (hb : b ∈ objects ev r.target)
+    (hne : (⟨k, r.source, r.sc, a⟩ : NodeId) ≠ ⟨k, r.target, r.tc, b⟩) :
+    (⟨⟨k, r.source, r.sc, a⟩, ⟨k, r.target, r.tc, b⟩⟩ : Link) ∈ eventLinks k et ev := by
+  unfold eventLinks
+  simp only [List.mem_flatMap, List.mem_filter]
+  exact ⟨r, ⟨hr, hc⟩, mem_relLinks.mpr ⟨_, mem_sourceNodes.mpr ⟨a, ha, rfl⟩, _, mem_targetNodes.mpr ⟨b, hb, rfl⟩, hne, Or.inl rfl⟩⟩
+
+/-- the whole graph: the `i`-th event added (counting from the number `k` of the first) is covered -/
+theorem graph_covers : ∀ (evs : List (EtDef × Ev)) (k i : Nat) (et : EtDef) (ev : Ev), evs[i]? = some (et, ev) →
+    ∀ (p : PropDef) (v : String), p ∈ et.props → p.assocs ≠ [] → v ∈ objects ev p.name →
+    ∃ n ∈ graphNodes k evs, n.event = k + i ∧ n.prop = p.name ∧ n.value = v
+  | [], _, i, _, _, h => by simp at h
+  | (et0, ev0) :: rest, k, 0, et, ev, h => by
+    intro p v hp ha hv
+    simp only [List.getElem?_cons_zero, Option.some.injEq, Prod.mk.injEq] at h
+    obtain ⟨rfl, rfl⟩ := h
+    obtain ⟨n, hn, h1, h2, h3⟩ := construct_covers k et0 ev0 p v hp ha hv
+    exact ⟨n, by simp [graphNodes, hn], by simpa using h1, h2, h3⟩
+  | (et0, ev0) :: rest, k, i + 1, et, ev, h => by
+    intro p v hp ha hv
+    simp only [List.getElem?_cons_succ] at h
+    obtain ⟨n, hn, h1, h2, h3⟩ := graph_covers rest (k + 1) i et ev h p v hp ha hv
+    exact ⟨n, by simp [graphNodes, hn], by omega, h2, h3⟩
+
+/-- nodes of different events never coincide: event numbers are handed out once -/
+theorem graph_nodes_event : ∀ (evs : List (EtDef × Ev)) (k : Nat) (n : NodeId), n ∈ graphNodes k evs →
+    k ≤ n.event ∧ n.event < k + evs.length
+  | [], _, _, h => by simp [graphNodes] at h
+  | (et0, ev0) :: rest, k, n, h => by
+    simp only [graphNodes, List.mem_append] at h
+    rcases h with h | h
+    · have := (nodes_sound k et0 ev0 n h).1
+      simp only [List.length_cons]; omega
+    · have := graph_nodes_event rest (k + 1) n h
+      simp only [List.length_cons]; omega
+
+/-- the constructor as it was before /repo commit 019d0ed does NOT cover: an event with an object for
+the target property of a concept relation and none for the source property loses that object -/
+def gapEt : EtDef :=
+  { props := [⟨"pa", "oa", ["ca"]⟩, ⟨"pb", "ob", ["cb"]⟩], rels := [⟨.inter, "pa", "pb", "ca", "cb"⟩] }
+
+theorem old_construction_misses :
+    ∃ (et : EtDef) (ev : Ev) (p : PropDef) (v : String), p ∈ et.props ∧ p.assocs ≠ [] ∧ v ∈ objects ev p.name ∧
+      ∀ n ∈ eventNodesOld 0 et ev, ¬ (n.prop = p.name ∧ n.value = v) :=
+  ⟨gapEt, [("pb", ["only-target"])], ⟨"pb", "ob", ["cb"]⟩, "only-target", by decide, by decide, by decide, by decide⟩
+
+/-- ... and it agrees with the repaired constructor on every event that has an object for the source
+property of each of its concept relations (all the SDK's tests feed such events) -/
+theorem old_agrees_when_sources_present (k : Nat) (et : EtDef) (ev : Ev)
+    (h : ∀ r ∈ et.rels, r.isConcept = true → objects ev r.source ≠ []) :
+    eventNodesOld k et ev = eventNodes k et ev := by
+  unfold eventNodesOld eventNodes
+  congr 1
+  apply List.flatMap_congr
+  intro r hr
+  simp only [List.mem_filter] at hr
+  have hne := h r hr.1 hr.2
+  unfold relNodesOld relNodes
+  have : (sourceNodes k r ev).isEmpty = false := by
+    unfold sourceNodes
+    cases hobj : objects ev r.source with
+    | nil => exact absurd hobj hne
+    | cons a as => simp
+  simp [this]
+
+example : eventNodes 0 gapEt [("pb", ["only-target"])] = [⟨0, "pb", "cb", "only-target"⟩] := by decide
+example : eventNodes 3 gapEt [("pa", ["a"]), ("pb", ["b1", "b2"])] =
+    [⟨3, "pa", "ca", "a"⟩, ⟨3, "pb", "cb", "b1"⟩, ⟨3, "pb", "cb", "b2"⟩] := by decide
+example : (eventLinks 3 gapEt [("pa", ["a"]), ("pb", ["b1", "b2"])]).length = 4 := by decide
+example : RelsOk gapEt := by
+  intro r hr hc
+  simp only [gapEt, List.mem_cons, List.not_mem_nil, or_false] at hr
+  subst hr
+  exact ⟨⟨⟨"pa", "oa", ["ca"]⟩, by simp [gapEt], rfl, by simp⟩, ⟨⟨"pb", "ob", ["cb"]⟩, by simp [gapEt], rfl, by simp⟩⟩
+
+end Construct
 
 /-! ### Non-vacuity -/
 
